@@ -387,7 +387,7 @@ class C01(Prop):
         else:
             nm = g["name"]
             raw = nm in ("script", "style")
-            leaf = "a=b;" if raw else rnd.choice(gamma.HOSTILE)
+            leaf = "a=b; x<y && z>0" if raw else rnd.choice(gamma.HOSTILE)
             title = rnd.choice(gamma.HOSTILE)
             T = lambda s: {"k": "text", "name": "", "attrs": [], "c": [], "t": cps(s)}
             E = lambda name, attrs, c: {"k": "tag", "name": name, "attrs": [{"n": a, "v": cps(v)} for a, v in attrs], "c": c, "t": []}
